@@ -136,7 +136,8 @@ Proof.
     destruct HR as (E & Ho & Hp). inversion E; subst. cbn [fst snd] in *.
     assert (HA : match aligned with Some A => p2 A | None => True end).
     { destruct aligned as [A|]; [|exact I]. apply andb_prop in Hal. destruct Hal as (Hp2 & Hle).
-      apply is_pow2_small; [exact Hp2|lia]. }
+      (* the analyzer's bound, scraped: the annotation must be validated for this proof to go through *)
+      change aligned_pow2_max with 268435456 in Hle. apply is_pow2_small; [exact Hp2|lia]. }
     destruct fs as [|f fs'].
     + cbn in En, Ec. inversion En; inversion Ec; subst. cbn [length]. apply rec_finish_empty. exact HA.
     + cbn [length]. apply rec_finish_ok; auto.
